@@ -1,6 +1,7 @@
 package sx
 
 import (
+	"os"
 	"fmt"
 	"go/constant"
 	"go/token"
@@ -223,6 +224,9 @@ func (m *Machine) visitGuarded(fr *frame, instr ssa.Instruction) (k int) {
 	defer func() {
 		if r := recover(); r != nil {
 			if pa, ok := r.(pathAbort); ok && pa.Kind == "unsupported" {
+				if debugInit {
+					fmt.Fprintf(os.Stderr, "init-poison: %s: %s\n", fr.fn, pa.Msg)
+				}
 				if v, ok := instr.(ssa.Value); ok {
 					fr.env[v] = Poison{pa.Msg}
 				}
@@ -859,3 +863,5 @@ func shortName(fn *ssa.Function) string {
 	}
 	return s
 }
+
+var debugInit = os.Getenv("VERIF_DEBUG_INIT") != ""
